@@ -278,7 +278,7 @@ Strip(lg) == [i \in 1..Len(lg) |-> <<lg[i][1], lg[i][3], lg[i][4]>>]
 \* the run an expectation refers to: runinfo.expectRun (1-based), by default the previous one
 RefRun == IF runinfo.expectRun > 0 /\ runinfo.expectRun <= Len(prev) THEN prev[runinfo.expectRun] ELSE prev[Len(prev)]
 
-V_CrossRun(failed) ==
+V_CrossRun(failed, tries) ==
   IF prev = <<>> \/ runinfo.expect = "" THEN {}
   ELSE LET pr == RefRun IN
     \* the run after a persisted failure, with no flags: the fail file is found and replayed first
@@ -299,6 +299,8 @@ V_CrossRun(failed) ==
           \cup If(runinfo.entry # "makecheck" /\ pr.entry # "makecheck" /\ (rep.kind # pr.rep.kind \/ rep.valid # pr.rep.valid \/ rep.msg # pr.rep.msg), "seed_run_differs")
           \cup If(failed # pr.failed, "seed_run_differs")
           \cup If(buf.id # pr.buf.id, "seed_run_differs")
+          \* the minimizer tried the same candidates in the same order ("" = nothing minimized, or possibly cut short by -rapid.shrinktime)
+          \cup If(tries # "" /\ pr.tries # "" /\ tries # pr.tries, "seed_run_differs")
      ELSE {})
     \* unusable fail files present: same random test cases and same verdict as without them
     \cup (IF runinfo.expect = "same_as_clean" /\ ~mon.fromFF
@@ -308,10 +310,10 @@ V_CrossRun(failed) ==
 
 RunEnd ==
   /\ Is("run.end") /\ Adv
-  /\ viol' = viol \cup (IF runinfo.entry = "makecheck" THEN V_RunEndNoTB(Ev.failed) ELSE V_RunEnd(Ev.failed, Ev.failnow)) \cup V_CrossRun(Ev.failed)
+  /\ viol' = viol \cup (IF runinfo.entry = "makecheck" THEN V_RunEndNoTB(Ev.failed) ELSE V_RunEnd(Ev.failed, Ev.failnow)) \cup V_CrossRun(Ev.failed, Ev.tries)
                   \cup If(Ev.how = "panic", "check_crashed")
   /\ prev' = Append(prev, [valid |-> TRUE, rep |-> rep, buf |-> buf, finalDraws |-> mon.finalObs.draws, failDraws |-> mon.failDraws,
-              runlog |-> runlog, failed |-> Ev.failed, savedFile |-> mon.savedFile, fromFF |-> mon.fromFF, entry |-> runinfo.entry])
+              runlog |-> runlog, failed |-> Ev.failed, savedFile |-> mon.savedFile, fromFF |-> mon.fromFF, entry |-> runinfo.entry, tries |-> Ev.tries])
   /\ pc' = "ended"
   /\ UNCHANGED <<cfg, ffq, ff, pend, valid, invalid, seed, cur, flag, e1, e2, buf, best, orig, sErr, cache, shrinks, rep, tbFailed, tbFailNow, mon>>
   /\ UNCHANGED <<scen, ffBuf, topInv, runlog, runinfo>>
